@@ -48,6 +48,17 @@ def check(ctx):
         ok = formula_equiv(tf, want) or (cn == "StoreTimer" and formula_equiv(tf, "self.store.stamp is not None and " + want))
         ctx.check(ok, "T7-clock", gx, "%s.expired iff %s" % (cn, want), "expired exactly when the clock has reached the stop")
         if cn == "MonoTimer":
+            # every public method that reads the compensated state (.start/.stop/.latest) looks at the clock first
+            for mname in ("restart", "repeat", "extend"):
+                mm = C.own_method(mname)
+                W = FuncView(ctx, mm)
+                up = W.call_nodes("self.update")
+                reads = [n for n in W.cfg.nodes if any(isinstance(x, ast.Attribute) and isinstance(x.ctx, ast.Load) and
+                                                       src(x) in ("self.start", "self.stop", "self.latest") for x in W.cfg.walk_node(n))]
+                ctx.check(bool(up) and all(W.dominated([r_], up) for r_ in reads), "T7-clock", mm,
+                          "MonoTimer.%s calls update() before it reads start/stop/latest" % mname,
+                          "a value of .start/.stop read before update() is the one from before a backward clock jump: passing it "
+                          "to restart() overwrites the compensation - elapsed goes backwards, the repeated period starts late")
             for m in (ge, gr, gx):
                 W = FuncView(ctx, m)
                 up = W.call_nodes("self.update")
